@@ -433,7 +433,7 @@ fn check_pair(item: &str, _ctx: &Ctx) -> Outcome {
 pub fn property() -> Property {
     Property {
         id: "C16",
-        rule: "Cases: proptest-generated programs of the fragment, each rendered canonically and in 4 (thorough 8) random spellings: tight variants (random letter case in keywords, identifiers, exponent and radix letters; blanks between word-like tokens dropped where the run of letters still splits into the same words; ? for PRINT; GO TO, GO SUB; =< => and blanks inside <= >= <>; line number glued to the text) \
+        rule: "Cases: proptest-generated programs of the fragment, each rendered canonically and in 4 (thorough 8) random spellings; every spelled line is typed and also read through the loader with optional blanks or a tab in front of its number: tight variants (random letter case in keywords, identifiers, exponent and radix letters; blanks between word-like tokens dropped where the run of letters still splits into the same words; ? for PRINT; GO TO, GO SUB; =< => and blanks inside <= >= <>; line number glued to the text) \
 and loose variants (additionally: extra blanks between any two tokens, LET dropped, REM <-> '). Oracle (metamorphic): every variant line parses to the generator's tree (column-free AST), tight variants LIST exactly like the canonical program, every variant's RUN transcript and final variables equal the canonical ones. \
 Non-trivial: a variant differs from the canonical text in >= 3 places of >= 2 kinds. Distinct by canonical program. Literal pairs from the repository's lexer tests are checked as well.",
         assumptions: vec![
